@@ -118,7 +118,7 @@ let () =
           | "nilalgo" -> mk AlgoNil
           | "other" -> mk AlgoOther
           | "nilmp" -> mk (AlgoModPow None)
-          | "mp" | "badB" -> mk (AlgoModPow (Some mp))
+          | k when k = "mp" || (String.length k >= 4 && String.sub k 0 4 = "badB") -> mk (AlgoModPow (Some mp))
           | k -> raise (Oracle ("unknown account password kind " ^ k)) in
         let r = tg_get_input_check_password sha256 pbkdf2 mexp (bytes_of_hex pw) ap [] in
         (match r with
